@@ -15,7 +15,7 @@ Event codes (`Gen.Gates.vocab`, pinned by `vocab_codes`):
   32 strings.TrimSpace · 33 c.Request.Method = … · 34 redirect308 · 35 Set Location · 36 WriteHeader(308) · 37 redirectLocation ·
   38 u.String() · 39 lr.reader.Read · 40 fmt.Errorf("%w: %d bytes", ErrBodyLimitExceeded, …) · 41 lr.read += n ·
   42 redirect308HTTP · 43 h.ServeHTTP · 44 w.Header().Set("Location") · 45 w.WriteHeader(308) · 46 Context().Value(csrf key) ·
-  47 c.Request.URL.Path = … · 48 newURL.Path = …
+  47 c.Request.URL.Path = … · 48 newURL.Path = … · 49 lookup in a local map (onlyOnMap[…], allowMap[…])
 -/
 import Rivaas.Gen.Gates
 import Rivaas.Tie.MwSkel
@@ -41,7 +41,7 @@ theorem vocab_codes :
        "redirect308", ".Response.Header.Set(Location)", ".Response.WriteHeader(http.StatusPermanentRedirect)",
        "redirectLocation", ".String", ".reader.Read", "fmt.Errorf(%w: %d bytes)", "=.read", "redirect308HTTP", ".ServeHTTP",
        ".Header.Set(Location)", ".WriteHeader(http.StatusPermanentRedirect)", ".Request.Context.Value", "=.Request.URL.Path",
-       "=.Path"] := by decide
+       "=.Path", "[]"] := by decide
 
 /-! ### bodylimit -/
 
@@ -99,6 +99,18 @@ theorem basicauth_paths (ρ : Atom → Bool) :
         (keepCodes [1, 2, 4, 8, 9, 10, 11, 12, 13, 14, 15, 16, 17, 18]))) = true :=
   every_exec basicauth_handler [1, 2, 4, 8, 9, 10, 11, 12, 13, 14, 15, 16, 17, 18] _ (by decide) ρ
 
+/-- the password comparison is `subtle.ConstantTimeCompare` on the entry of the user table, and its outcome can go both
+    ways: the accepting and the rejecting path behind it exist, as do those behind a validator (removing the comparison, or
+    the test of `authenticated`, removes one of them). That the OUTCOME of the comparison is what selects the path is not
+    visible at this level of abstraction (conditions are atoms): correspondence only. -/
+theorem basicauth_compare_can_go_both_ways :
+    (codeTraces basicauth_handler [1, 2, 4, 8, 9, 10, 11, 12, 13, 14, 15, 16, 17, 18]).contains [4, 8, 9, 10, 11, 13, 14, 17, 18, 1] = true ∧
+    (codeTraces basicauth_handler [1, 2, 4, 8, 9, 10, 11, 12, 13, 14, 15, 16, 17, 18]).contains [4, 8, 9, 10, 11, 13, 14, 15, 16, 2] = true ∧
+    (codeTraces basicauth_handler [1, 2, 4, 8, 9, 10, 11, 12, 13, 14, 15, 16, 17, 18]).contains [4, 8, 9, 10, 11, 12, 17, 18, 1] = true ∧
+    (codeTraces basicauth_handler [1, 2, 4, 8, 9, 10, 11, 12, 13, 14, 15, 16, 17, 18]).contains [4, 8, 9, 10, 11, 12, 15, 16, 2] = true ∧
+    (∀ t ∈ codeTraces basicauth_handler [1, 2, 4, 8, 9, 10, 11, 12, 13, 14, 15, 16, 17, 18], dominates 13 14 t = true) := by
+  decide
+
 theorem basicauth_config :
     basicauth_defaults = [("users", "make(map[string]string)"), ("realm", "\"Restricted\""), ("validator", "nil"),
                           ("unauthorizedHandler", "defaultUnauthorizedHandler"), ("skipPaths", "make(map[string]bool)")] ∧
@@ -147,17 +159,25 @@ theorem cors_config :
 /-! ### methodoverride -/
 
 def methodOK (t : List Nat) : Bool :=
-  t.head? == some 29 && endsWith [1] t && t.count 1 == 1 &&
-  (t.contains 33 → endsWith [32, 29, 17, 18, 33, 1] t && t.contains 30) &&
+  [29, 49].isPrefixOf t && endsWith [1] t && t.count 1 == 1 &&
+  (t.contains 33 → endsWith [32, 29, 49, 17, 18, 33, 1] t && t.contains 30 && t.count 49 == 2) &&
   dominates 30 31 t
 
-/-- `methodoverride.New`'s handler, on every path (`Method.serve`): the only-on test on the upper-cased request method
-    comes first; the query parameter is consulted only after the header; the method is rewritten only after the value was
-    normalised (`TrimSpace`, `ToUpper`) and the original recorded in the request context, directly before the single
-    `c.Next()`; every request goes on (this gate never rejects) -/
+/-- `methodoverride.New`'s handler, on every path (`Method.serve`): the only-on lookup (49) on the upper-cased request
+    method comes first; the query parameter is consulted only after the header; the method is rewritten only after the value
+    was normalised (`TrimSpace`, `ToUpper`), LOOKED UP in the allow map (the second 49) and the original recorded in the
+    request context, directly before the single `c.Next()`; every request goes on (this gate never rejects) -/
 theorem methodoverride_rewrite_behind_tests (ρ : Atom → Bool) :
-    methodOK (codesOf ((exec ρ methodoverride_handler).trace.filter (keepCodes [1, 29, 30, 31, 32, 33, 46, 17, 18]))) = true :=
-  every_exec methodoverride_handler [1, 29, 30, 31, 32, 33, 46, 17, 18] methodOK (by decide) ρ
+    methodOK (codesOf ((exec ρ methodoverride_handler).trace.filter (keepCodes [1, 29, 30, 31, 32, 33, 46, 17, 18, 49]))) = true :=
+  every_exec methodoverride_handler [1, 29, 30, 31, 32, 33, 46, 17, 18, 49] methodOK (by decide) ρ
+
+/-- both lookups can refuse: there is an exit right after the only-on lookup and one right after the allow-list lookup
+    (deleting either test removes its exit and breaks this) -/
+theorem methodoverride_lookups_can_refuse :
+    (codeTraces methodoverride_handler [1, 29, 30, 31, 32, 33, 46, 17, 18, 49]).contains [29, 49, 1] = true ∧
+    (codeTraces methodoverride_handler [1, 29, 30, 31, 32, 33, 46, 17, 18, 49]).contains [29, 49, 30, 32, 29, 49, 1] = true ∧
+    (codeTraces methodoverride_handler [1, 29, 30, 31, 32, 33, 46, 17, 18, 49]).contains [29, 49, 30, 32, 29, 49, 17, 18, 33, 1] = true := by
+  decide
 
 theorem methodoverride_config :
     methodoverride_defaults =
